@@ -498,7 +498,7 @@ def shrink(rep, targets, max_rounds=8):
 # --------------------------------------------------------------------------- the check
 def draw_configs(rep, n):
     """edge-pattern configurations drawn by TLC (-simulate, seeded) from the rule space of the spec"""
-    res = tlc.run_tlc('Anf', CFG_CFG, workers=1, timeout=300, simulate=dict(num=4 * n, depth=3),
+    res = tlc.run_tlc('Anf', CFG_CFG, workers=1, timeout=300, simulate=dict(num=40 * n, depth=3),
                       seed=common.seed() + 18, name='Anf_cfg')
     if res.rc != 0 or res.errors:
         raise common.MachineryError('Anf configs run failed:\n' + res.stdout[-2000:])
@@ -509,7 +509,11 @@ def draw_configs(rep, n):
             if key not in seen:
                 seen.add(key)
                 cfgs.append(v['cfg'])
+    # TLC's simulator starts many behaviours with the same first rule: pick from the drawn pool in an order
+    # that depends on the seed only
     cfgs.sort(key=lambda c: json.dumps(c, sort_keys=True))
+    import random
+    random.Random(common.seed() + 18).shuffle(cfgs)
     two = [c for c in cfgs if len(c) == 2]
     one = [c for c in cfgs if len(c) == 1]
     pick = (two[:n // 2] + one)[:n]
